@@ -155,6 +155,22 @@ fn apply_operator(left: &Value, op: &str, right: &Value) -> Result<Value> {
 
     // A non-numeric operand of -, *, / or % is an evaluation error, not a panic
     // (for + the non-numeric case was handled as concatenation above).
+    // Two integers: exact integer arithmetic whenever the result is an integer in range
+    // (an f64 cannot represent every i64 above 2^53, so going through f64 loses digits)
+    if let (Value::Integer(a), Value::Integer(b)) = (left, right) {
+        let exact = match op {
+            "+" => a.checked_add(*b),
+            "-" => a.checked_sub(*b),
+            "*" => a.checked_mul(*b),
+            "/" if *b != 0 && a.checked_rem(*b) == Some(0) => a.checked_div(*b),
+            "%" if *b != 0 => a.checked_rem(*b),
+            _ => None,
+        };
+        if let Some(value) = exact {
+            return Ok(Value::Integer(value));
+        }
+    }
+
     let left_num = left_num?;
     let right_num = right_num?;
 
